@@ -239,6 +239,20 @@ fn table_checks(r: &mut Rep) {
     if catch(|| raw(&t[512])).is_ok() {
         r.viol("C08|PageTable|index-512-accepted", "table index 512", "");
     }
+    // ... whatever the out-of-range number: every boundary / few-bit value from 512 up, for reads and writes
+    for n in crate::b64::b64().into_iter().chain((9..64).flat_map(|b| (0..9).map(move |j| (1u64 << b) | (1u64 << j) | 3))) {
+        if n < 512 {
+            continue;
+        }
+        r.ev(true);
+        let before = bytes(&t);
+        let rd = catch(|| raw(&t[n as usize])).is_ok();
+        let wrr = catch(|| t[n as usize].set_unused()).is_ok();
+        if rd || wrr || bytes(&t) != before {
+            r.viol("C08|PageTable|numeric-index-beyond-511-is-accepted-or-aliases-a-slot", &format!("table index {:#x}", n), &format!("read accepted {}, write accepted {}", rd, wrr));
+            break;
+        }
+    }
     t.zero();
     if bytes(&t).iter().any(|&b| b != 0) || !t.is_empty() {
         r.viol("C08|PageTable::zero|not-all-zero-or-not-empty", "table zero", "");
